@@ -554,6 +554,11 @@ def run_czar(exe, case, scratch, timeout=30.0):
                 before = [parse_shared(r) for r in T.all_do(["dumpshared a"], timeout)]
                 out = T.all_do(["postrun", "dumpshared a"], timeout)
                 res.append((t, [parse_shared(r) for r in out], [[x for x in r if x.startswith("POSTRUN")] for r in out], before))
+                if case.get("twice"):
+                    # a second output at the same step (C14_abf_czar_gather_repeated)
+                    before2 = res[-1][1]
+                    out = T.all_do(["postrun", "dumpshared a"], timeout)
+                    res.append((t, [parse_shared(r) for r in out], [[x for x in r if x.startswith("POSTRUN")] for r in out], before2))
             fmts = case.get("restart_at", {}).get(str(t))
             if fmts:
                 # the job ends here and is started again: every walker goes through its state file (walker w in format fmts[w])
